@@ -638,7 +638,7 @@ def loop_program(shape, contexts):
 # ------------------------------------------------------------------------------------------
 # C04: syntax-rules rule sets and uses inside the expander's supported class
 # ------------------------------------------------------------------------------------------
-MACRO_LITERALS = ["else", "=>"]
+MACRO_LITERALS = ["else", "=>", "to", "y"]
 MACRO_VARS = ["a", "b", "c", "d", "e", "f"]
 MACRO_DATA = ["1", "2", "#t", "\"s\"", "#\\x"]
 
@@ -769,9 +769,9 @@ class MacroGen:
         if k < 0.3:
             return str(r.randint(0, 9))
         if k < 0.5:
-            return r.choice(["x", "y", "z", "else", "=>"])
+            return r.choice(["x", "y", "z", "else", "=>", "to"])
         if k < 0.6:
-            return r.choice(MACRO_DATA)
+            return r.choice(MACRO_DATA + ['"else"', '"=>"', '"to"', '"y"', "#\\y"])
         if depth <= 0:
             return "w"
         inner = " ".join(self.datum(depth - 1) for _ in range(r.randint(0, 3)))
@@ -785,8 +785,16 @@ class MacroGen:
         if t in ("var", "any"):
             return self.datum(2)
         if t == "lit":
+            if mutate and r.random() < 0.3:
+                # near misses: data that print like the literal but are not the identifier
+                near = ['"%s"' % p[1], "other", "(%s)" % p[1]] + (["#\\" + p[1]] if len(p[1]) == 1 else [])
+                return r.choice(near)
             return p[1]
         if t == "datum":
+            if mutate and r.random() < 0.3:
+                near = {'"s"': ["s", "#\\s", '"t"'], "#\\x": ["x", '"x"', "#\\y"], "1": ['"1"', "2", "#\\1"], "2": ['"2"', "1"],
+                        "#t": ["#f", '"#t"', "t"]}
+                return r.choice(near.get(p[1], [p[1]]))
             return p[1]
         items = []
         for i, x in enumerate(p[1]):
@@ -1120,6 +1128,7 @@ def encapsulation_case(rng):
     names = ["lib%s" % c for c in "abc"[:k]]
     internal = rng.choice(["n", "state", "x"])
     helper = rng.choice(["helper", "h", "step"])
+    collide = []
     for i, name in enumerate(names):
         deps = [d for d in names[:i] if rng.random() < 0.7]
         ext_peek = rng.choice(["peek-%s" % name, "look-%s" % name])
@@ -1129,6 +1138,13 @@ def encapsulation_case(rng):
                 "(define (next-%s) (%s 1))" % (name, helper),
                 "(define (peek) %s)" % internal,
                 "(define (reset-%s!) (set! %s 0))" % (name, internal)]
+        # an export whose EXTERNAL name collides with an unexported internal of this library (the helper, the state
+        # variable) or with a name it imports: the library's own procedures must keep seeing their internal binding
+        if rng.random() < 0.5:
+            target = rng.choice([helper, internal, "car", "+"] + ["next-%s" % d for d in deps])
+            body.append("(define (alt-%s . r) 'alt-%s)" % (name, name))
+            exports.append("(rename alt-%s %s)" % (name, target))
+            collide.append(target)
         for d in deps:
             exports.append("via-%s-%s" % (name, d))
             body.append("(define (via-%s-%s) (next-%s) (next-%s))" % (name, d, d, d))
@@ -1153,6 +1169,7 @@ def encapsulation_case(rng):
         if name in imported:
             pool += ["(next-%s)" % name, "(%s)" % ext_peek, "(reset-%s!)" % name]
             pool += ["(via-%s-%s)" % (name, d) for d in deps]
+    pool += ["(%s 1 2)" % c for c in collide] + ["(car '(1 2))", "(+ 1 2)"]
     pool += [internal, helper, "peek", "(define %s 100)" % internal, "(define (%s d) 'mine)" % helper,
              "(set! %s 7)" % internal, "(define (peek) 'shadow)"]
     for name in imported:
@@ -1324,12 +1341,18 @@ def readable_value(rng, depth, defs):
 # ------------------------------------------------------------------------------------------
 # C15: fault programs laid out over several lines, with known extents
 # ------------------------------------------------------------------------------------------
+LAYOUT_STRINGS = ['"first line\nsecond line\n  third"', '"tab\there \u00e9\u00fc"', '"esc \\" q \\\\ \\n z\nnext"',
+                  '"\nstarts with a line break"', '"x\\n\ny"', '"a\n\nb"', '#\\x "s\nt"', '"\u4e2d\u6587 wide"', "'|sym\nbol|"]
+
+
 def layout_program(rng, forms):
-    """returns (text, extents) where extents[k] = ((line, col) of the first character,
-    (line, col) just after the last character) of form k; 1-based, columns count characters"""
+    """returns (text, extents, token_ends) where extents[k] = ((line, col) of the first character,
+    (line, col) just after the last character) of form k; 1-based, columns count characters;
+    token_ends[k][j] = (line, col) just after token j of form k"""
     text = ""
     line, col = 1, 1
     extents = []
+    token_ends = []
 
     def emit(s):
         nonlocal text, line, col
@@ -1343,9 +1366,15 @@ def layout_program(rng, forms):
 
     for f in forms:
         emit(rng.choice(["", "\n", "  ", "\n\n", "; note (\n", "   ; )\n  ", "\t"]))
+        if rng.random() < 0.3:
+            # a string literal that spans lines (a top-level form of its own, evaluating to itself), tabs, escapes,
+            # characters outside ASCII: the line/column bookkeeping inside tokens
+            emit(rng.choice(LAYOUT_STRINGS))
+            emit(rng.choice(["\n", " ", "\n  "]))
         toks = split_tokens(f)
         start = None
         depth = 0
+        ends = []
         for j, t in enumerate(toks):
             if j > 0:
                 prev = toks[j - 1]
@@ -1355,13 +1384,15 @@ def layout_program(rng, forms):
             if start is None:
                 start = (line, col)
             emit(t)
+            ends.append((line, col))
             if t in ("(", "#("):
                 depth += 1
             elif t == ")":
                 depth -= 1
         extents.append((start, (line, col)))
+        token_ends.append(ends)
         emit(rng.choice(["\n", "\n", " ", "\n\n"]))
-    return text, extents
+    return text, extents, token_ends
 
 
 LOC_FAULTS = {
@@ -1380,7 +1411,8 @@ LOC_CONTEXTS = ["direct", "nested", "lambda-call", "apply", "library-lambda", "d
 
 
 def located_fault_program(rng, kind, context):
-    """the fault sits in the text of the failing top-level form itself. returns (forms, index, marker)"""
+    """the fault sits in the text of the failing top-level form itself. returns (forms, index, marker) where marker is
+    None or the index, among the tokens of the failing form, of the offending identifier / operator"""
     g = Gen(rng, ticks=False, derived=True)
     forms, _ = g.program(rng.randint(0, 5), 2)
     forms.append("(define fa2 (lambda (a b) (+ a b)))")
@@ -1388,7 +1420,8 @@ def located_fault_program(rng, kind, context):
     if context == "direct":
         f = expr
     elif context == "nested":
-        f = rng.choice(["(list 1 %s 3)", "(+ 1 (if #t %s 0))", "(vector (cons 1 %s))"]) % expr
+        f = rng.choice(["(list 1 %s 3)", "(+ 1 (if #t %s 0))", "(vector (cons 1 %s))", "(list \"two\nlines\" %s)",
+                        "(cons \"a\\\\\nb\tc\" (list %s))"]) % expr
     elif context == "lambda-call":
         f = rng.choice(["((lambda (z) %s) 1)", "((lambda () 1 %s))", "((lambda (z) (if z %s 0)) #t)"]) % expr
     elif context == "apply":
@@ -1401,6 +1434,12 @@ def located_fault_program(rng, kind, context):
     idx = len(forms)
     forms.append(f)
     forms.append("(display 'not-reached)")
+    if marker is not None:
+        # f = wrapper % expr: the marker's token index = tokens of the wrapper before the hole + its index in expr
+        k = f.index(expr)
+        assert f.count(expr) == 1
+        marker = len(split_tokens(f[:k])) + split_tokens(expr).index(marker)
+        assert split_tokens(f)[marker] in expr
     return forms, idx, marker
 
 
@@ -1493,6 +1532,24 @@ def py_equal(a, b):
     if is_pair(a) or is_pair(b):
         return False
     return py_eqv(a, b)
+
+
+def perturb(rng, v):
+    """a copy of v that differs from it in exactly one place (an atom changed, an element dropped or added, the tail
+    changed), at a random position of a random nesting level"""
+    if not is_pair(v):
+        return rng.choice([x for x in [0, 1, "a", "z", (), True, ("pair", 1, ())] if not py_equal(x, v)])
+    items, tail = py_items(v)
+    k = rng.randrange(len(items) + 1)
+    if k < len(items) and rng.random() < 0.6:
+        items = items[:k] + [perturb(rng, items[k])] + items[k + 1:]
+    elif k < len(items) and len(items) > 1 and rng.random() < 0.5:
+        items = items[:k] + items[k + 1:]
+    elif rng.random() < 0.5:
+        items = items[:k] + [rand_atom(rng)] + items[k:]
+    else:
+        tail = perturb(rng, tail)
+    return PyList.from_items(items, tail)
 
 
 def list_call(rng):
@@ -1599,7 +1656,10 @@ def list_call(rng):
             return "(%s %s %s)" % (name, q(x), q(l)), PyList.canon(res), name
         if name == "equal?":
             a = rand_list(rng, 5, 2, 0.2)
-            b = a if rng.random() < 0.5 else rand_list(rng, 5, 2, 0.2)
+            r = rng.random()
+            b = a if r < 0.35 else (perturb(rng, a) if r < 0.8 else rand_list(rng, 5, 2, 0.2))
+            if rng.random() < 0.5:
+                a, b = b, a
             return "(equal? %s %s)" % (q(a), q(b)), PyList.canon(py_equal(a, b)), name
         if name == "apply":
             l = rand_list(rng, 5, 0, 0.0)
